@@ -1,4 +1,4 @@
-(* Proofs/C11_rechunk.v — re-chunking helpers: chunk_entries (pinned `if`, repaired `while`) and chunk_lines. *)
+(* Proofs/C11_rechunk.v — re-chunking helpers: chunk_entries_pinned (pinned `if`, repaired `while`) and chunk_lines. *)
 From Coq Require Import ZArith List Bool Lia Arith.
 From BNP Require Import Base.Prims Base.PrimsFacts Model.C11.
 Import ListNotations.
@@ -162,8 +162,8 @@ Proof.
     { rewrite len_app. lia. }
     { lia. }
     rewrite E'. exists (o ++ o'). split; [reflexivity|]. split.
-    + rewrite concat_app, Hc'. cbn [concat]. rewrite app_assoc. rewrite <- (app_assoc (concat o)).
-      rewrite Hc. rewrite <- app_assoc. reflexivity.
+    + rewrite concat_app, Hc'. cbn [concat]. rewrite !app_assoc. f_equal.
+      rewrite <- app_assoc. exact Hc.
     + rewrite map_app. apply sizes_ok_app; [unfold N; lia| |exact Hs'].
       apply Forall_forall. intros x Hx. apply in_map_iff in Hx. destruct Hx as (y & <- & Hy).
       rewrite Forall_forall in Hfo. exact (Hfo y Hy).
@@ -183,15 +183,15 @@ Proof.
 Qed.
 
 Theorem rechunk_pinned_order : forall (n : nat) (cs : list (list Z)),
-  exists out, chunk_entries n cs = Some out /\ concat out = concat cs.
+  exists out, chunk_entries_pinned n cs = Some out /\ concat out = concat cs.
 Proof.
   intros n cs. exists (chunk_entries_if n [] cs). split; [reflexivity|].
-  apply chunk_entries_if_concat.
+  exact (chunk_entries_if_concat n cs []).
 Qed.
 
 Theorem rechunk_pinned_partial : forall (n : nat) (cs : list (list Z)), (1 <= n)%nat ->
   no_double n 0 cs ->
-  exists out, chunk_entries n cs = Some out /\ rechunk_ok 1 (Z.of_nat n) (concat cs) out = true.
+  exists out, chunk_entries_pinned n cs = Some out /\ rechunk_ok 1 (Z.of_nat n) (concat cs) out = true.
 Proof.
   intros n cs Hn Hnd. destruct (rechunk_fixed n cs Hn) as (out & E & Hok & _).
   unfold chunk_entries_fixed in E. rewrite (if_equals_while n Hn cs []) in E by exact Hnd.
@@ -200,7 +200,7 @@ Qed.
 
 Theorem rechunk_pinned_refuted :
   exists (n : nat) (cs : list (list Z)), (1 <= n)%nat /\
-    forall out, chunk_entries n cs = Some out -> rechunk_ok 1 (Z.of_nat n) (concat cs) out = false.
+    forall out, chunk_entries_pinned n cs = Some out -> rechunk_ok 1 (Z.of_nat n) (concat cs) out = false.
 Proof.
   exists 3%nat, [[0; 1; 2; 3; 4; 5; 6; 7; 8; 9]]. split; [lia|].
   intros out E. injection E as <-. vm_compute. reflexivity.
